@@ -19,6 +19,7 @@ RULES = {
     "C05.R9": "qfallback dequantizes every QTensor in args and kwargs",
     "C05.R10": "re-quantizing handlers compute on dequantized values and re-quantize with the operand qtype and documented scale",
     "C05.R18": "mutation is local and atomic: (a) a handler that writes a scale in place (copy_) must not meet scale tensors shared between a result and its operand (neg / relu / where / views hand their operand's scale object to the result); (b) it checks that source and destination scales have the same layout before it changes anything; (c) every tensor class intercepts the mutating op copy_ (a class without it copies into a dequantized temporary: a silent no-op)",
+    "C05.R20": "overloads: the dispatch hands every overload of an aten packet to one handler, so a handler of `view` must tell view(dtype) - a reinterpretation of the bytes, meaningless on the codes - from view(size) and fall back",
     "C05.R19": "a handler accepts the optional arguments of the aten ops it is registered for (div: rounding_mode; copy_: non_blocking): as a named parameter or through **kwargs",
     "C05.R17": "integer payload arithmetic does not wrap: neg / abs are applied to a raw int8 payload only after the lowest code (which has no positive counterpart) has been clamped away",
     "C05.R12": "scale positivity: a handler that rescales by a scalar preserves the sign of the scale whenever another handler works on raw payloads assuming a positive scale",
@@ -171,7 +172,27 @@ def mutation_rules(chk, hs):
                     if f and U(f["scale"]) in [f"{x}._scale" for x in tparams] + [f"{x}[0]._scale" for x in tparams]:
                         sharers.append(h.name)
                         break
-    n = len(writers)
+    # the same for payloads: the scalar mul / div handlers wrap their operand's `_data` object with a new scale, and copy_ writes payloads in place
+    dwriters, dsharers = [], []
+    for h in qb:
+        inplace = [o for o in h.ops if o.split(".")[1].endswith("_")]
+        opn = positional_params(h.fn)[0]
+        if inplace:
+            for nd in ast.walk(h.fn):
+                if isinstance(nd, ast.Call) and U(nd.func) == opn and nd.args and U(nd.args[0]).endswith("._data"):
+                    dwriters.append((h, nd))
+        else:
+            tparams = positional_params(h.fn)[1:]
+            for p in paths_of(h.fn):
+                if p.end[0] == "return" and is_ctor(p.end[1]):
+                    f = ctor_fields(repo, "QBytesTensor", p.end[1])
+                    if f and U(f["data"]) in [f"{x}._data" for x in tparams]:
+                        dsharers.append(h.name)
+                        break
+    for h, nd in dwriters:
+        chk.require("C05.R18", f"{h.mi.rel}:{nd.lineno}", not dsharers, f"{h.name} writes a payload in place (`{U(nd)[:50]}`); handlers wrapping their operand's payload object in their result: {sorted(set(dsharers))}", h.name, "in-place payload write meets shared payloads",
+                    "r = q * 2.0; r.copy_(y): q is overwritten too (r and q hold the same `_data` tensor under different scales); q moves by 2.3 .. 3.7 where the float program leaves it unchanged")
+    n = len(writers) + len(dwriters)
     for h, nd in writers:
         chk.require("C05.R18", f"{h.mi.rel}:{nd.lineno}", not sharers, f"{h.name} writes a scale in place (`{U(nd)[:50]}`); handlers handing their operand's scale object to their result: {sorted(set(sharers))[:8]}", h.name, "in-place scale write meets shared scales",
                     "r = -q; r.copy_(p): q is rescaled too (r and q hold the same scale tensor); q[0:2].copy_(p[0:2]) rescales the rows of q that were not written; a model whose forward copies into a module output rewrites that module's output_scale buffer")
@@ -191,6 +212,17 @@ def mutation_rules(chk, hs):
             agree = any(("_scale.shape" in a or ".axis" in a) and dest in a and ("==" in a) for a in facts)
             chk.require("C05.R18", f"{h.mi.rel}:{muts[0][4]}", agree, f"{h.name}: the layouts of the two scales are compared before the destination is changed (facts: {sorted(facts)[:3]})", h.name, "copy_ mutates before the layouts are known to agree",
                         "per_tensor_q.copy_(per_axis_q) (or axis 0 <- axis -1): the codes are overwritten, then the scale copy raises a broadcast RuntimeError; the destination holds the new codes under its old scale")
+    # ---- (d) a plain source is broadcast to the destination before it is quantized with the destination's (per-axis) scale
+    for h in qb:
+        if "aten.copy_" not in h.ops:
+            continue
+        dest, src = positional_params(h.fn)[1:3]
+        for nd in ast.walk(h.fn):
+            if isinstance(nd, ast.Call) and U(nd.func).endswith("Quantizer.apply") and nd.args:
+                a0 = U(nd.args[0])
+                n += 1
+                chk.require("C05.R18", f"{h.mi.rel}:{nd.lineno}", a0 != src, f"{h.name}: the plain source is broadcast to the destination before quantization (`{a0[:40]}`)", h.name, "copy_ quantizes an un-broadcast source",
+                            "per_axis_q.copy_(torch.tensor(0.5)) / copy_ of a row (8,) into an axis-0 (4, 8) destination: ValueError / IndexError from the quantizer, the float program broadcasts")
     # ---- (c) every tensor class intercepts copy_
     for table, cname in (("qbytes", "QBytesTensor"), ("qbits", "QBitsTensor")):
         has = any("aten.copy_" in h.ops for h in hs[table])
@@ -209,3 +241,12 @@ def mutation_rules(chk, hs):
                 chk.require("C05.R19", f"{h.mi.rel}:{h.fn.lineno}", ok, f"{h.name} accepts {kws} of {o}", h.name, f"{h.name} rejects optional arguments of {o}",
                             "torch.div(q, 2., rounding_mode='floor') (even rounding_mode=None) / q.copy_(q2, non_blocking=True): TypeError, the float program is valid")
     chk.floor("C05.R19", m, 2, "handlers of ops with optional arguments")
+    # ---- overloads with another meaning
+    v = 0
+    for h in qb:
+        if "aten.view" in h.ops:
+            v += 1
+            guarded = any(isinstance(x, ast.Call) and U(x.func) == "isinstance" and len(x.args) == 2 and U(x.args[1]) == "torch.dtype" for x in ast.walk(h.fn))
+            chk.require("C05.R20", f"{h.mi.rel}:{h.fn.lineno}", guarded, f"{h.name} tests for the dtype overload of view before it applies the op to the codes", h.name, "view(dtype) applied to the codes",
+                        "q.view(torch.float32) on a per-tensor qint8 tensor of shape (4, 8): a (4, 2) 'qint8' tensor with a float32 payload; q.view(torch.uint8): a qint8 tensor holding uint8 codes (the float program reinterprets the float values)")
+    chk.floor("C05.R20", v, 1, "view handlers")
